@@ -32,7 +32,9 @@ func (s *KeeperTestSuite) verifC19Value(appID, poolID uint64, farmer sdk.AccAddr
 	kit, err := s.keeper.GetPoolTokenDesrializerKit(s.ctx, appID, poolID)
 	s.Require().NoError(err)
 	x, y, err := s.keeper.CalculateXYFromPoolCoin(s.ctx, kit, af.FarmedPoolCoin)
-	s.Require().NoError(err)
+	if err != nil {
+		return sdkmath.LegacyZeroDec() // a position too small to redeem anything is worth nothing
+	}
 	asset, err := s.keeper.GetAssetWhoseOraclePriceExists(s.ctx, kit.Pair.QuoteCoinDenom, kit.Pair.BaseCoinDenom)
 	s.Require().NoError(err)
 	amt := y
@@ -78,15 +80,23 @@ func (s *KeeperTestSuite) TestVerifC19FarmProRata() {
 		{987654321987, 31, 1000003},          // large master, small children
 	}
 	var farmers []sdk.AccAddress
+	// a farmer whose farmed position is too small to redeem anything (worth nothing): it must be paid nothing and must not
+	// shift the pairing of the farmers that follow it in address order; it gets the lowest address so that it sorts first
+	dust := s.addr(5)
+	s.Deposit(appID, master.Id, dust, "1000000uasset1,1000000uasset2")
+	s.nextBlock()
+	s.Require().NoError(s.keeper.Farm(s.ctx, types.NewMsgFarm(appID, master.Id, dust, sdk.NewCoin(master.PoolCoinDenom, sdkmath.NewInt(5)))))
 	for i, p := range plan {
-		f := s.addr(i + 1)
+		f := s.addr(i + 10)
 		farmers = append(farmers, f)
 		depositAndFarm(f, master, p[0], "uasset1", "uasset2")
 		depositAndFarm(f, child1, p[1], "uasset1", "uasset3")
 		depositAndFarm(f, child2, p[2], "uasset2", "uasset3")
 	}
+	farmers = append(farmers, dust)
 	s.ctx = s.ctx.WithBlockTime(s.ctx.BlockTime().Add(types.DefaultFarmingQueueDuration).Add(10 * time.Minute))
 	s.nextBlock()
+	s.Require().True(s.verifC19Value(appID, master.Id, dust).IsZero(), "the dust position must be worth nothing")
 
 	allocations := []string{"1", "2", "7", "999", "1000000", "123456789", "1000000000000", "98765432109876"}
 	if os.Getenv("VERIF_TIER") == "thorough" {
@@ -173,7 +183,7 @@ func (s *KeeperTestSuite) TestVerifC19FarmProRata() {
 		}
 	}
 	if out := os.Getenv("VERIF_BOUNDED_OUT"); out != "" {
-		os.WriteFile(out, []byte(`{"function":"liquidity Keeper.GetFarmingRewardsData (with GetAggregatedChildPoolContributions)","label":"bounded","bound":"one app, master pool + 2 child pools, `+strconv.Itoa(len(plan))+` farmers with a fixed spread of farmed amounts (7 .. 9.9e11, some pools not farmed), `+strconv.Itoa(len(mechs))+` gauge mechanisms x `+strconv.Itoa(len(allocations))+` epoch allocations (1 .. 9.9e13); one oracle price","evaluations":`+strconv.Itoa(evals)+`,"distinct_nontrivial":`+strconv.Itoa(paidCases)+`,"violating":`+strconv.Itoa(bad)+`,"rule":"a case is one call of GetFarmingRewardsData; non-trivial counts positive payouts","sample":"`+sample+`","laws":["payouts sum to at most the epoch allocation","payout_i <= ceil(allocation * eligible_i / sum eligible * (1 + 1e-12))","only farmers of the gauge's pool are paid, each at most once"]}`), 0o644)
+		os.WriteFile(out, []byte(`{"function":"liquidity Keeper.GetFarmingRewardsData (with GetAggregatedChildPoolContributions)","label":"bounded","bound":"one app, master pool + 2 child pools, `+strconv.Itoa(len(plan))+` farmers with a fixed spread of farmed amounts (7 .. 9.9e11, some pools not farmed) plus one farmer whose 5 farmed pool-coin units are worth nothing, `+strconv.Itoa(len(mechs))+` gauge mechanisms x `+strconv.Itoa(len(allocations))+` epoch allocations (1 .. 9.9e13); one oracle price","evaluations":`+strconv.Itoa(evals)+`,"distinct_nontrivial":`+strconv.Itoa(paidCases)+`,"violating":`+strconv.Itoa(bad)+`,"rule":"a case is one call of GetFarmingRewardsData; non-trivial counts positive payouts","sample":"`+sample+`","laws":["payouts sum to at most the epoch allocation","payout_i <= ceil(allocation * eligible_i / sum eligible * (1 + 1e-12))","only farmers of the gauge's pool are paid, each at most once"]}`), 0o644)
 	}
 	s.Require().Zero(bad, "%d violating cases of %d; first: %s", bad, evals, firstBad)
 }
